@@ -123,6 +123,25 @@ pub mod a3 {
                     t => panic!("bad acc3 kind {}", t),
                 }
             }
+            // `map_elements_in_local_aabb` of the scaled 3-D heightfield: hf3_scaled_elems <hf body> scale(3) VIA NB (mins(3) maxs(3))*
+            //   output: prims tri N coords*  boxes NB (k (id coords(9))*)*
+            "hf3_scaled_elems" => {
+                let m = super::super::ext::e3::hf(a);
+                let sc = d3::v(a); let via = a.u();
+                let m2: HeightField = if via == 0 { m.scaled(&sc) } else {
+                    match m.scale_dyn(&sc, 8) { None => return Some("none".into()),
+                        Some(b) => match b.as_heightfield() { Some(t) => t.clone(), None => return Some("unknown-shape".into()) } } };
+                let nb = a.u();
+                let mut o = format!("{} boxes {}", ftris(m2.triangles()), nb);
+                for _ in 0..nb {
+                    let lo = d3::p(a); let hi = d3::p(a);
+                    let mut got: Vec<(u32, Triangle)> = Vec::new();
+                    m2.map_elements_in_local_aabb(&Aabb::new(lo, hi), &mut |i, t| got.push((i, *t)));
+                    o.push_str(&format!(" {}", got.len()));
+                    for (i, t) in got { o.push_str(&format!(" {} {} {} {}", i, d3::fp(&t.a), d3::fp(&t.b), d3::fp(&t.c))); }
+                }
+                o
+            }
             // routing of `Shape::scale_dyn`: which TypedShape variant comes back (recursively for compounds)
             "scale_dyn_kind3" => { let s = super::super::ext::e3::sh(a); let sc = d3::v(a); let n = a.u() as u32;
                 match s.scale_dyn(&sc, n) { None => "none".into(), Some(r) => fkind(&*r) } }
